@@ -459,6 +459,10 @@ var c11Truncations, c11Corruptions int
 
 func runC11(c *c11Case) (v verdict, sig string, err error) {
 	_, hsig, herr, cache, model := runC04x(&c.Hist)
+	tol := map[int]bool{}
+	for k, val := range lastC04Tolerant {
+		tol[k] = val
+	}
 	if herr != nil {
 		// a failing history is C04's business; C11 needs a cache to save
 		return v, "history-" + hsig, herr
@@ -540,6 +544,27 @@ func runC11(c *c11Case) (v verdict, sig string, err error) {
 		v.label(true, "save-over-existing-file")
 	}
 	probes := savedProbes(&c.Hist, model)
+	// ids named by a field-less template record and not re-announced since: what they decode to is the collector's
+	// choice (gone, or a template without fields); the round trip must preserve that choice, whatever it is
+	var tolProbes []savedProbe
+	{
+		var strict []savedProbe
+		for _, pr := range probes {
+			isTol := false
+			for i := range c.Hist.Slots {
+				if tol[i] && string(c.Hist.Slots[i].Addr) == string(pr.slot.Addr) && c.Hist.Slots[i].ID == pr.slot.ID {
+					isTol = true
+				}
+			}
+			if isTol {
+				tolProbes = append(tolProbes, pr)
+			} else {
+				strict = append(strict, pr)
+			}
+		}
+		probes = strict
+	}
+	v.label(len(tolProbes) > 0, "ids-named-by-field-less-records")
 	v.label(true, "proto-"+proto)
 	v.label(len(probes) == 0, "empty-cache")
 	v.label(len(probes) >= 3, ">=3-saved-templates")
@@ -551,6 +576,21 @@ func runC11(c *c11Case) (v verdict, sig string, err error) {
 	}
 	if e := checkNothingInvented(loaded, probes, true); e != nil {
 		return v, "roundtrip", fmt.Errorf("round trip: %v", e)
+	}
+	for _, pr := range tolProbes {
+		r1, p1 := cache.decodeFlow(wire.ExactIP(pr.slot.Addr), pr.msg.Bytes())
+		r2, p2 := loaded.decodeFlow(wire.ExactIP(pr.slot.Addr), pr.msg.Bytes())
+		if p1 != nil || p2 != nil {
+			return v, "panic", fmt.Errorf("%v %v", p1, p2)
+		}
+		want := make([]wire.ExpRecord, len(r1.Recs))
+		for i := range r1.Recs {
+			want[i] = wire.ExpRecord(r1.Recs[i])
+		}
+		if (r1.Err == nil) != (r2.Err == nil) || wire.CompareRecords(r2.Recs, want) != "" {
+			return v, "roundtrip", fmt.Errorf("round trip: exporter %x id %d (named by a field-less template record before the save) decodes differently after load: before %d records err=%v, after %d records err=%v",
+				[]byte(pr.slot.Addr), pr.slot.ID, len(r1.Recs), r1.Err, len(r2.Recs), r2.Err)
+		}
 	}
 	for _, bp := range bulkProbes {
 		r2, p2 := loaded.decodeFlow(wire.ExactIP(bp.addr), bp.data)
@@ -729,7 +769,7 @@ func TestC11(t *testing.T) {
 	envs := map[string]*wire.GenEnv{"ipfix": wire.NewGenEnv("ipfix"), "nf9": wire.NewGenEnv("nf9")}
 	rapid.Check(t, func(t *rapid.T) {
 		proto := rapid.SampledFrom([]string{"ipfix", "nf9"}).Draw(t, "proto")
-		c := c11Case{Hist: genC04(t, proto, envs[proto]), PrefixSeed: rapid.IntRange(0, 1<<20).Draw(t, "prefixseed")}
+		c := c11Case{Hist: genC04(t, proto, envs[proto], "withdraw"), PrefixSeed: rapid.IntRange(0, 1<<20).Draw(t, "prefixseed")}
 		c.Prefill = rapid.SampledFrom([]string{"", "", "pretty", "tail", "big", "older"}).Draw(t, "prefill")
 		c.OtherFS = rapid.IntRange(0, 3).Draw(t, "otherfs") == 0
 		c.Bulk = rapid.SampledFrom(append(make([]int, 90), 1, 1, 1, 2, 2, 3, 3)).Draw(t, "bulk")
